@@ -414,7 +414,7 @@ func checkMergedView(p *Program, r *Report) {
 					sup = mk("init", "", nil, mk("field", a.iterT.Obj().Name()+"."+st.Field(i).Name(), nil, recv))
 				}
 			}
-			isDel := mk("pcall", delName, nil, rec)
+			isDel := mk("pcall", delName, nil, rec, memSnap(s.St, rec))
 			hide := fAnd(fAtom(okT), fAtom(isDel), fAtom(sup))
 			w := witnessOf(p, s.St.trace)
 			switch s.Kind {
